@@ -2,6 +2,8 @@
 import contextvars
 import functools
 import inspect
+import sys
+import threading
 from typing import (
     Callable,
     Any,
@@ -677,29 +679,56 @@ def resolve_kwdefaults(sign: inspect.Signature) -> Dict[str, Any]:
 # This flag is used to avoid recursively checking contracts for the same function or instance while
 # contract checking is already in progress.
 #
-# The key refers to the id() of the function (preconditions and postconditions) or instance (invariants).
+# A mark is a pair of the id() of the function (preconditions and postconditions) or instance (invariants) and
+# the thread or asyncio task which is checking the contracts (see :func:`_current_owner`).
 #
 # The set is immutable and the variable is re-bound on every change. A mutable set would be shared, by reference,
 # with all the contexts copied from the current one (*e.g.*, with the asyncio tasks and the threads started by
 # ``asyncio.to_thread``), so that the concurrent callers would disable each other's checks.
+#
+# The owner is a part of the mark since a context can also be copied *while* a mark is set (*e.g.*, a task is
+# created in a body of a method of a class with invariants, or in a condition). The copy inherits the marks for good,
+# but they are not the marks of the new task or thread and must not disable its checks.
 _IN_PROGRESS = contextvars.ContextVar(
     "_IN_PROGRESS", default=None
-)  # type: contextvars.ContextVar[Optional[FrozenSet[int]]]
+)  # type: contextvars.ContextVar[Optional[FrozenSet[Tuple[int, Any]]]]
+
+
+def _current_owner() -> Any:
+    """Identify the asyncio task, if any, or otherwise the thread which executes the current call."""
+    # If asyncio has not been imported, there can be no running task.
+    asyncio_module = sys.modules.get("asyncio", None)
+    if asyncio_module is not None:
+        try:
+            task = asyncio_module.current_task()
+        except RuntimeError:
+            # There is no running event loop in this thread.
+            task = None
+
+        if task is not None:
+            return task
+
+    return threading.get_ident()
 
 
 def _is_in_progress(an_id: int) -> bool:
-    """Check whether the function or the instance is marked as in progress in the current context."""
+    """Check whether the current thread or task marked the function or the instance as in progress."""
     in_progress = _IN_PROGRESS.get()
-    return in_progress is not None and an_id in in_progress
+    if not in_progress:
+        return False
+
+    return (an_id, _current_owner()) in in_progress
 
 
 def _mark_in_progress(an_id: int) -> Any:
     """Mark the function or the instance as in progress in the current context and return the token to unmark it."""
+    mark = (an_id, _current_owner())
+
     in_progress = _IN_PROGRESS.get()
     if in_progress is None:
-        return _IN_PROGRESS.set(frozenset((an_id,)))
+        return _IN_PROGRESS.set(frozenset((mark,)))
 
-    return _IN_PROGRESS.set(in_progress | frozenset((an_id,)))
+    return _IN_PROGRESS.set(in_progress | frozenset((mark,)))
 
 
 def _unmark_in_progress(token: Any) -> None:
